@@ -352,7 +352,7 @@ package gossipval
 //@ func ValidateAttesterSlashing(ctx, attSl, attSlVal) res
 //@   property C12
 //@   requires attSl != nil && attSlVal != nil
-//@   assigns ghost(gvver), ghost(n_mark_attsl), ghost(last_mark_attsl_len)
+//@   assigns ghost(gvver), ghost(n_mark_attsl), ghost(last_mark_attsl_len), heap(CachedPubkey.decompressed)
 //@   ensures accept_slashable: res.Result == ACCEPT ==> slashable_data(attSl.Attestation1.Data, attSl.Attestation2.Data)
 //@   ensures accept_sets: res.Result == ACCEPT ==> idxset_ok(gv_spec(attSlVal), attSl.Attestation1) && idxset_ok(gv_spec(attSlVal), attSl.Attestation2)
 //@   ensures accept_head: res.Result == ACCEPT ==> !gv_head_err(old(gvver)) && !st_vals_err(gv_head_state(old(gvver)))
